@@ -398,16 +398,56 @@ pub fn gen(tier: Tier, seed: u64) -> Vec<String> {
 }
 
 pub fn run(out: &mut Out, tier: Tier, seed: u64, replay: Option<Vec<String>>) {
-    let ops = match replay {
+    let replaying = replay.is_some();
+    let mut ops = match replay {
         Some(r) => r,
         None => gen(tier, seed),
     };
+    // A wall-clock budget keeps the tier inside its time limit on a loaded machine: the generated schedules are
+    // visited in a fixed pseudo-random order (a stride permutation), so that stopping early leaves a uniform sample of
+    // every configuration instead of losing the last ones; how many were visited is written to the evidence.
+    let budget = std::time::Duration::from_secs(
+        std::env::var("UMYA_C16_BUDGET_S").ok().and_then(|x| x.parse().ok()).unwrap_or(if tier == Tier::Thorough { 1000 } else { 240 }),
+    );
+    if !replaying && ops.len() > 1 {
+        let n = ops.len();
+        let mut stride = 1_000_003usize % n;
+        while stride == 0 || gcd(stride, n) != 1 {
+            stride = (stride + 1) % n;
+            if stride == 0 {
+                stride = 1;
+            }
+        }
+        let mut perm = Vec::with_capacity(n);
+        let mut k = 0usize;
+        for _ in 0..n {
+            perm.push(std::mem::take(&mut ops[k]));
+            k = (k + stride) % n;
+        }
+        ops = perm;
+    }
+    let t0 = std::time::Instant::now();
+    let total = ops.len();
+    let mut done = 0usize;
     for op in ops {
+        if !replaying && t0.elapsed() > budget {
+            break;
+        }
         out.begin(&op);
         let (reply, nt) = exec(out, &op);
         let a: Vec<&str> = op.split(' ').collect();
         out.count(&format!("savers.{}", a.len().saturating_sub(4)));
         out.count(&format!("mode.{}", a.get(2).unwrap_or(&"?")));
         out.end(&op, &reply, nt);
+        done += 1;
     }
+    if done < total {
+        out.notes.push(format!("time budget of {} s reached: {} of {} generated schedules visited (pseudo-random order, every configuration sampled)", budget.as_secs(), done, total));
+    } else {
+        out.notes.push(format!("all {} generated schedules visited", total));
+    }
+}
+
+fn gcd(a: usize, b: usize) -> usize {
+    if b == 0 { a } else { gcd(b, a % b) }
 }
